@@ -61,14 +61,19 @@ pub trait IndexingScheme {
         let mut stack = Vec::new();
         if !known_bindings.contains(key) {
             stack.push(DfsEnter(*key));
-            visited.insert(*key);
         }
         while let Some(state) = stack.pop() {
             match state {
                 DfsEnter(key) => {
+                    // Mark as visited when entered (not when pushed), so that a
+                    // prerequisite shared by several keys is emitted before all
+                    // of them.
+                    if !visited.insert(key) {
+                        continue;
+                    }
                     stack.push(DfsExit(key));
                     for req_key in self.required_bindings(&key) {
-                        if !known_bindings.contains(&req_key) && visited.insert(req_key) {
+                        if !known_bindings.contains(&req_key) && !visited.contains(&req_key) {
                             stack.push(DfsEnter(req_key));
                         }
                     }
